@@ -341,7 +341,7 @@ PROPS["C13"] = {
             "write then fail'), plus a 'store full' sweep (from the k-th write on every underlying write returns Ok(0)); each failed API call is retried up to 2x; every faulty run is limited to 50x the fault-free underlying call count + 20000 (bounded progress in logical steps). Oracles: the API call inside which the underlying call failed "
             "returns Err; no panic and no request on the (instrumented) lock that would block forever; an Ok flush implies the underlying "
             "writer was flushed after its last write; an Ok set_len shows the new length to a fresh lookup; whenever Stream::flush returns Ok a fresh handle reads back every byte accepted by earlier write "
-            "calls on that handle, and so does the reopened byte image - also after a failed flush; once every failed call has succeeded on retry (and the store did not tear a write) the stored bytes must open again and hold the state bits that set_state_bits reported as set - also when the failure hit a structural call. One workload per shard in quick (four script families: two handles with migrations and write_vectored; v3 directory/FAT growth - past 128 sectors on two workloads -, truncating re-creation, set_len growth into sectors that removed streams left dirty; v4 directory growth at the 33rd entry, swept from that creation on; a prebuilt 7 MB v3 image crossing from 109 to 110 FAT sectors, swept around the crossing; a 5-KB regular stream released under the sweep - set_len(0), set_len below the cutoff, removal or truncating re-creation - followed by two more regular streams; family F: small streams that use up one MiniFAT sector exactly - 128 / 1024 mini sectors -, then a small stream under the sweep that makes the MiniFAT chain grow and the header's MiniFAT sector count change; family G: five streams, each put through one call that moves it between the mini stream and regular sectors or releases its chain - a write-back across 4096 bytes, set_len across it in both directions, set_len(0), truncating re-creation - where the call that fails is repeated only after an interlude in which another small and another large stream are created, written and flushed: they may be given whatever the failed call released and must still read back at the end; while the failed call is not yet repeated the stored-file demands are suspended). A structural call (create_storage, create_stream, remove_stream) that failed and then succeeded on retry makes the tree known again: the read-back oracles apply from then on; family H: a set_len that moves a stream to another chain or releases it fails and - in the runs that do not repeat it - the caller goes on, overwrites a few bytes inside the stream and flushes: the model carries both candidates (as before / resized) through the later writes and resizes, a fresh handle must read one of them, and from the first flush that rewrites the directory entry on the stored bytes must agree as well. When the workload started from nothing or from a file that strict mode accepts, the stored bytes must also be accepted by the library's own strict mode at every such point (every write that failed has been repeated, so no header or FAT field may still carry what a failed write left behind). Fault positions after a marker are numbered on the fault plan's own scale (calls made during the harness's paused read-backs do not count); in the runs with an odd fault position a failed set_len is not repeated (the stream must then be as before or resized, nothing else), and every position at which a set_len failed is run a second time with the other answer; at the end of a workload in which every failed call succeeded on retry, each stream that nothing touched since its flush returned Ok is read back once more through a fresh handle; six workloads per shard in thorough. evaluations = faulty runs; "
+            "calls on that handle, and so does the reopened byte image - also after a failed flush; once every failed call has succeeded on retry (and the store did not tear a write) the stored bytes must open again and hold the state bits that set_state_bits reported as set - also when the failure hit a structural call. One workload per shard in quick (four script families: two handles with migrations and write_vectored; v3 directory/FAT growth - past 128 sectors on two workloads -, truncating re-creation, set_len growth into sectors that removed streams left dirty; v4 directory growth at the 33rd entry, swept from that creation on; a prebuilt 7 MB v3 image crossing from 109 to 110 FAT sectors, swept around the crossing; a 5-KB regular stream released under the sweep - set_len(0), set_len below the cutoff, removal or truncating re-creation - followed by two more regular streams; family F: small streams that use up one MiniFAT sector exactly - 128 / 1024 mini sectors -, then a small stream under the sweep that makes the MiniFAT chain grow and the header's MiniFAT sector count change; family G: five streams, each put through one call that moves it between the mini stream and regular sectors or releases its chain - a write-back across 4096 bytes, set_len across it in both directions, set_len(0), truncating re-creation - where the call that fails is repeated only after an interlude in which another small and another large stream are created, written and flushed: they may be given whatever the failed call released and must still read back at the end; while the failed call is not yet repeated the stored-file demands are suspended). A structural call (create_storage, create_stream, remove_stream) that failed and then succeeded on retry makes the tree known again: the read-back oracles apply from then on; family H: a set_len that moves a stream to another chain or releases it fails and - in the runs that do not repeat it - the caller goes on, overwrites a few bytes inside the stream and flushes: the model carries both candidates (as before / resized) through the later writes and resizes, a fresh handle must read one of them, and from the first flush that rewrites the directory entry on the stored bytes must agree as well; its last episode is a shrink in place that fails and is not repeated, another stream created in and removed from what it released, then a set_len to a length between the two: besides 'as before' and 'resized' a third candidate is admitted there (the bytes up to the cut at the next mini sector boundary, zeros behind). When the workload started from nothing or from a file that strict mode accepts, the stored bytes must also be accepted by the library's own strict mode at every such point (every write that failed has been repeated, so no header or FAT field may still carry what a failed write left behind). Fault positions after a marker are numbered on the fault plan's own scale (calls made during the harness's paused read-backs do not count); in the runs with an odd fault position a failed set_len is not repeated (the stream must then be as before or resized, nothing else), and every position at which a set_len failed is run a second time with the other answer; at the end of a workload in which every failed call succeeded on retry, each stream that nothing touched since its flush returned Ok is read back once more through a fresh handle; six workloads per shard in thorough. evaluations = faulty runs; "
             "distinct_nontrivial = distinct (workload, kind, position); exhaustive = all positions of all four sweeps visited (family C: all positions from its marker on)",
     "assumptions": COMMON_ASSUMPTIONS + ["errors swallowed by Stream::drop are outside the property (handles are flushed explicitly, and leaked rather than dropped if that keeps failing)",
                                          "after a failed structural call (create/remove/set_len) the affected content is no longer compared; only error reporting and no-panic are judged"],
